@@ -535,8 +535,6 @@ def _twins_r(
         int j, k, l
         object twins_j, twins_k
 
-    twins.append([])
-
     for j in range(N):
         twins.append([])
         twins_j = twins[j]
